@@ -165,6 +165,9 @@ func propC06(c c06Case, o *hx.Obs) *hx.Failure {
 		s.SetUciHandler(d)
 		ep := mkPos()
 		out := hx.RunSearch(s, d, ep, &root, hx.LimSpec{Mode: "depth", Depth: c.Depth, StopAfterMs: -1, PonderHitAfterMs: -1}, 120*time.Second)
+		if out.Slow {
+			return out, nil
+		}
 		if out.Hung {
 			return out, hx.Failf("C06/hang", "search depth %d on %s (%s) did not end", c.Depth, root.FEN(), comboName(combo))
 		}
@@ -205,6 +208,10 @@ func propC06(c c06Case, o *hx.Obs) *hx.Failure {
 			out, f := runEngine(combo)
 			if f != nil {
 				return f
+			}
+			if out.Slow {
+				o.Label("slow-search-stopped-by-harness(inconclusive)")
+				return nil
 			}
 			res := out.Result
 			if int(res.BestValue) != want {
@@ -252,6 +259,10 @@ func propC06(c c06Case, o *hx.Obs) *hx.Failure {
 	if f != nil {
 		return f
 	}
+	if base.Slow {
+		o.Label("slow-search-stopped-by-harness(inconclusive)")
+		return nil
+	}
 	o.Evals(1)
 	for _, combo := range c.Combos {
 		if combo == 0 {
@@ -260,6 +271,10 @@ func propC06(c c06Case, o *hx.Obs) *hx.Failure {
 		out, f := runEngine(combo)
 		if f != nil {
 			return f
+		}
+		if out.Slow {
+			o.Label("slow-search-stopped-by-harness(inconclusive)")
+			return nil
 		}
 		o.Evals(1)
 		if out.Result.BestValue != base.Result.BestValue {
